@@ -86,7 +86,13 @@ def run(repo, chk):
             # canonical of Hgeu(remaining, needed) is Hleu(needed, remaining)
             kind = 'space'
             want_stub = 'stack_overflow'
-            ok_cmp = cb == 'asm.State(self.r1)'
+            # "remaining" must be the scratch register in which C* computed fp - ap (minus what is already reserved)
+            regs = [src(c.args[0]) for c in f.cstar if c.ctor == 'asm.Sub']
+            first = f.cstar[0] if f.cstar else None
+            ok_cmp = bool(regs) and len(set(regs)) == 1 and cb == f'asm.State({regs[0]})' and first is not None and \
+                [src(a) for a in first.args[1:]] == ['asm.State(self.fp)', 'asm.State(self.ap)']
+            for c in f.cstar[1:]:
+                ok_cmp = ok_cmp and src(c.args[1]) == f'asm.State({regs[0]})'
         else:
             want_stub = None
             ok_cmp = False
